@@ -376,7 +376,8 @@ class _IntTests:
             if not tb or not all(any(st in ("arg0:round", "arg0:int", "arg0:floor", "arg0:trunc", "arg0:ceil") for st in x) for x in _main(tb) or [()]):
                 return False
             ta = self.trace(a)
-            return bool(ta) and bool(_bases(ta) & _bases(tb))
+            strip = lambda paths: {tuple(s_ for s_ in x if s_ not in ("arg0:int", "arg0:floor", "arg0:trunc", "arg0:ceil")) for x in _bases(paths)}
+            return bool(ta) and bool(strip(ta) & strip(tb))
         if isinstance(n, ast.Call) and callee_name(n) == "isclose" and len(n.args) >= 2:
             a, b = n.args[0], n.args[1]
             if integer_of(a, b):
@@ -959,6 +960,14 @@ class _Elim:
         if isinstance(e, (ast.Tuple, ast.List, ast.Set)):
             vals = [self.const_of(x, seen, depth + 1) for x in e.elts]
             return (True, [v for _ok, v in vals]) if all(ok for ok, _v in vals) else (False, None)
+        if isinstance(e, ast.IfExp):
+            # `sign = -1 if op == "+" else 1`: decided by the valuation in force (operator admitted / r == 0)
+            cur = getattr(self, "_cur_val", None)
+            t = C.eval3(e.test, cur) if cur is not None else None
+            if t is None:
+                a, b = self.const_of(e.body, seen, depth + 1), self.const_of(e.orelse, seen, depth + 1)
+                return a if a[0] and b[0] and a[1] == b[1] else (False, None)
+            return self.const_of(e.body if t else e.orelse, seen, depth + 1)
         if isinstance(e, ast.Name):
             vals = self.live_values(e, seen)
             if vals is None:
@@ -1043,6 +1052,7 @@ class _Elim:
         if depth > 30:
             raise AnalysisError("extract_eliminated_expressions: construction too deep")
         ev = lambda x: self.eval(x, val, seen, zero_r, depth + 1)
+        self._cur_val = val
         if isinstance(e, ast.IfExp):
             t = C.eval3(e.test, val)
             if t is None:
